@@ -251,4 +251,15 @@ example : let cmds : List (List Bytes) := [[ofStr "SET", [107], [13, 10]], [ofSt
   pipeline_replies_unsubscribed _ _ _ _ (ObsErrWF.of_none rfl) (by decide) (by decide +kernel) (by decide +kernel)
     (fun _ h => nomatch h) (by decide +kernel)
 
+/-- with a subscription: connection 7 subscribes to "c" and publishes to it — its own copy is written (flagged `push`) before
+    the PUBLISH reply; the decoded stream has 3 values, the 2 replies are `replySeq` -/
+example : let cmds : List (List Bytes) := [[nSubscribe, [99]], [nPublish, [99], [1]]]
+    let out := (Server.init 16).handleEvents { now := 0 } 7 (Resp.parseLoop Resp.St.init (cmds.map Resp.encodeCmd).flatten) []
+    out.2.2 = false ∧ Resp.decodeAllReplies (wire out.2.1) [] = some (out.2.1.map (·.reply)) ∧
+    (repliesOf out.2.1).map (·.reply) = replySeq (Server.init 16) { now := 0 } 7 cmds ∧ (repliesOf out.2.1).length = 2 :=
+  pipeline_replies _ _ _ _ (ObsErrWF.of_none rfl) (by decide) (by decide +kernel) (by decide +kernel)
+
+example (s : Server) (c : Nat) (args : List Bytes) : Resp.WF (s.execOn { now := 5 } c args).1.2 :=
+  (execOn_wf s { now := 5 } c args (ObsErrWF.of_none rfl)).1
+
 end Exec.C03
